@@ -696,7 +696,11 @@ Definition roundtrip (vr : variant) (lvs : list (leaf * val)) : option (list val
    compares with come from get_defaults(), in which no subcommand is chosen, and ActionLink.strip_link_target_keys(defaults)
    -> _ActionSubCommands.get_subcommands raises NSKeyError: there is no text at all.  (--print_config given inside the
    subcommand is dumped by the subcommand's own parser: req_sub = false there.) *)
-Definition dump_crashes (req_sub : bool) (vr : variant) : bool := req_sub && vr_skip_default vr.
+Definition dump_crashes_pinned (req_sub : bool) (vr : variant) : bool := req_sub && vr_skip_default vr.
+(* repaired in /repo (fix: dump(skip_default=True) of a parser with a required subcommand no longer raises): the stripping of
+   the DEFAULTS tolerates that they choose no subcommand, so there is a text again; dump_crashes_pinned keeps the old
+   behaviour as a regression witness *)
+Definition dump_crashes (req_sub : bool) (vr : variant) : bool := false.
 (* the chosen subcommand's options live under the prefix `sub` ("fit."); if the dump holds none of them (the subcommand
    has no options, or all are None under skip_none, or skip_default dropped them all) the text says `fit: {}` (or nothing),
    which the parser does not take for a choice of the subcommand: the re-parse is rejected (required subcommand) or comes
